@@ -209,6 +209,22 @@ Definition with_xpath_of (site body : decl) : decl :=
   let 'Decl c e _ _ fn args ig pa tm ob ar ty nt kp := body in
   Decl c e (d_xpath_of site) (d_xdyn_of site) fn args ig pa tm ob ar ty nt kp.
 
+(* validate the elements of a list in order (1-based position passed along); the first failure wins *)
+Section VMapI.
+  Context {A : Type} (f : nat -> A -> vres vdecl).
+  Fixpoint vmapi (i : nat) (l : list A) : vres (list vdecl) :=
+    match l with
+    | [] => VOk []
+    | a :: r =>
+        match f i a with
+        | VOk v => match vmapi (S i) r with
+                   | VOk vs => VOk (v :: vs) | VErr => VErr | VFuel => VFuel
+                   end
+        | VErr => VErr | VFuel => VFuel
+        end
+    end.
+End VMapI.
+
 Section Validate.
   Variable ds : list (bytes * decl).   (* transform_declarations *)
   Variable fexists : bytes -> bool.    (* the custom_func is registered with an acceptable signature *)
@@ -224,108 +240,86 @@ Section Validate.
     | _ => if linked then Some k else None
     end.
 
+  Section Go.
+    Variable stack : list bytes.      (* templateRefStack *)
+    (* validateDecl on the copy of a referenced template, with the extended stack *)
+    Variable jump : list bytes -> list bytes -> decl -> option kind -> bool -> vres vdecl.
+
+    Fixpoint vgo (fqdn : list bytes) (d : decl) (par : option kind) (linked : bool) {struct d} : vres vdecl :=
+      let 'Decl c e x xd fn args ig pa tm ob ar ty nt kp := d in
+      (* validateXPath *)
+      if (is_some x && is_some xd)%bool then VErr else
+      match (match xd with
+             | Some q => match vgo (fqdn ++ [bs "xpath_dynamic"]) q None false with
+                         | VOk v => VOk (Some v) | VErr => VErr | VFuel => VFuel
+                         end
+             | None => VOk None
+             end) with
+      | VErr => VErr
+      | VFuel => VFuel
+      | VOk vx =>
+          let k := resolve_kind d in
+          let p := pinfo_of k d in
+          match k with
+          | KObject =>
+              match ob with
+              | None => VErr   (* unreachable: kind object means Object != nil *)
+              | Some l =>
+                  match vmapi (fun _ nc => let '(name, cd) := nc in
+                                             vgo (fqdn ++ [esc_name name]) cd (par_of linked KObject) linked) 1 l with
+                  | VOk vs => VOk (mk_vd p fqdn par vx (sort_kids vs))
+                  | VErr => VErr | VFuel => VFuel
+                  end
+              end
+          | KArray =>
+              match ar with
+              | None => VErr
+              | Some l =>
+                  match vmapi (fun i cd => vgo (fqdn ++ [elem_name i]) cd (par_of linked KArray) linked) 1 l with
+                  | VOk vs => VOk (mk_vd p fqdn par vx vs)
+                  | VErr => VErr | VFuel => VFuel
+                  end
+              end
+          | KCustomFunc =>
+              match fn with
+              | None => VErr
+              | Some name =>
+                  if negb (fexists name) then VErr else
+                  match vmapi (fun i cd => vgo (fqdn ++ [func_name name; arg_name i]) cd (par_of linked KCustomFunc) linked) 1 args with
+                  | VOk vs => VOk (mk_vd p fqdn par vx vs)
+                  | VErr => VErr | VFuel => VFuel
+                  end
+              end
+          | KCustomParse =>
+              match pa with
+              | Some name => if pexists name then VOk (mk_vd p fqdn par vx []) else VErr
+              | None => VErr
+              end
+          | KTemplate =>
+              match tm with
+              | None => VErr
+              | Some name =>
+                  match lookup name ds with
+                  | None => VErr
+                  | Some body =>
+                      let stack' := stack ++ [name] in
+                      if has_dup stack' then VErr
+                      else if (d_isx body && d_isx d)%bool then VErr
+                      else
+                        let dn := if d_isx d then with_xpath_of d body else body in
+                        jump stack' fqdn dn par linked
+                  end
+              end
+          | _ => VOk (mk_vd p fqdn par vx [])
+          end
+      end.
+  End Go.
+
   Fixpoint validate_decl (fuel : nat) (stack : list bytes)
            : list bytes -> decl -> option kind -> bool -> vres vdecl :=
     match fuel with
     | O => fun _ _ _ _ => VFuel
-    | S f =>
-        fix go (fqdn : list bytes) (d : decl) (par : option kind) (linked : bool) {struct d} : vres vdecl :=
-          let 'Decl c e x xd fn args ig pa tm ob ar ty nt kp := d in
-          (* validateXPath *)
-          if (is_some x && is_some xd)%bool then VErr else
-          match (match xd with
-                 | Some q => match go (fqdn ++ [bs "xpath_dynamic"]) q None false with
-                             | VOk v => VOk (Some v) | VErr => VErr | VFuel => VFuel
-                             end
-                 | None => VOk None
-                 end) with
-          | VErr => VErr
-          | VFuel => VFuel
-          | VOk vx =>
-              let k := resolve_kind d in
-              let p := pinfo_of k d in
-              match k with
-              | KObject =>
-                  match ob with
-                  | None => VErr   (* unreachable: kind object means Object != nil *)
-                  | Some l =>
-                      match (fix kids (l : list (bytes * decl)) : vres (list vdecl) :=
-                               match l with
-                               | [] => VOk []
-                               | (name, cd) :: r =>
-                                   match go (fqdn ++ [esc_name name]) cd (par_of linked KObject) linked with
-                                   | VOk v => match kids r with
-                                              | VOk vs => VOk (v :: vs) | VErr => VErr | VFuel => VFuel
-                                              end
-                                   | VErr => VErr | VFuel => VFuel
-                                   end
-                               end) l with
-                      | VOk vs => VOk (mk_vd p fqdn par vx (sort_kids vs))
-                      | VErr => VErr | VFuel => VFuel
-                      end
-                  end
-              | KArray =>
-                  match ar with
-                  | None => VErr
-                  | Some l =>
-                      match (fix kids (i : nat) (l : list decl) : vres (list vdecl) :=
-                               match l with
-                               | [] => VOk []
-                               | cd :: r =>
-                                   match go (fqdn ++ [elem_name i]) cd (par_of linked KArray) linked with
-                                   | VOk v => match kids (S i) r with
-                                              | VOk vs => VOk (v :: vs) | VErr => VErr | VFuel => VFuel
-                                              end
-                                   | VErr => VErr | VFuel => VFuel
-                                   end
-                               end) 1 l with
-                      | VOk vs => VOk (mk_vd p fqdn par vx vs)
-                      | VErr => VErr | VFuel => VFuel
-                      end
-                  end
-              | KCustomFunc =>
-                  match fn with
-                  | None => VErr
-                  | Some name =>
-                      if negb (fexists name) then VErr else
-                      match (fix kids (i : nat) (l : list decl) : vres (list vdecl) :=
-                               match l with
-                               | [] => VOk []
-                               | cd :: r =>
-                                   match go (fqdn ++ [func_name name; arg_name i]) cd (par_of linked KCustomFunc) linked with
-                                   | VOk v => match kids (S i) r with
-                                              | VOk vs => VOk (v :: vs) | VErr => VErr | VFuel => VFuel
-                                              end
-                                   | VErr => VErr | VFuel => VFuel
-                                   end
-                               end) 1 args with
-                      | VOk vs => VOk (mk_vd p fqdn par vx vs)
-                      | VErr => VErr | VFuel => VFuel
-                      end
-                  end
-              | KCustomParse =>
-                  match pa with
-                  | Some name => if pexists name then VOk (mk_vd p fqdn par vx []) else VErr
-                  | None => VErr
-                  end
-              | KTemplate =>
-                  match tm with
-                  | None => VErr
-                  | Some name =>
-                      match lookup name ds with
-                      | None => VErr
-                      | Some body =>
-                          let stack' := stack ++ [name] in
-                          if has_dup stack' then VErr
-                          else if (d_isx body && d_isx d)%bool then VErr
-                          else
-                            let dn := if d_isx d then with_xpath_of d body else body in
-                            validate_decl f stack' fqdn dn par linked
-                      end
-                  end
-              | _ => VOk (mk_vd p fqdn par vx [])
-              end
-          end
+    | S f => vgo stack (validate_decl f)
     end.
 
   (* ValidateTransformDeclarations *)
